@@ -5,16 +5,23 @@
    LAYER REACHED: L3 — the acceptance half is closed at full strength (C01_parse_conforming: every well-formed
    specification document is accepted and parses to exactly the denoted records). The layers below it (L0 value
    literals, L1 entry value line, L2 record) are kept as theorems of their own.
-   L4 (rejection) is PARTIAL: proved are the general theorem C01_reject_raw (a document one of whose record places holds
-   lines on which parse_record reports an error is rejected with >= 1 error and no records: errors are never dropped,
-   parsing never crashes) and the fault classes "malformed or non-Gregorian date", "reversed range", "second open
-   range" and "summary line starting with a blank character" as single-line injections into an arbitrary well-formed
-   document. NOT yet proved as classes: text after the headline, wrong / mixed indentation, malformed time / duration
-   (other than through the general theorem), shifted placeholder, blank line inside a record, stray text. The guard
-   [raw_ok (inject_raw ...)] of the class theorems says that the edited text still has the layout of a document (the
-   new line is not blank, has no linefeed, and its ending is unambiguous); it is a boolean, checkable by computation. *)
+   L4 (rejection) is reached for every fault class of the property text, each as an injection into an ARBITRARY
+   well-formed document d (record k, line j), with the applicable shapes stated as hypotheses:
+     malformed / non-Gregorian date, text after the headline, wrong or mixed indentation (first indented line; later
+     lines, with the guard "not style+style" = legal continuation line), malformed time / duration / range (general
+     form + the families: time-shaped non-times such as hour > 24, minute > 59, 24:01, 24:00>, 13:00pm; missing dash;
+     missing or malformed end time; `1h60m`), reversed range, shifted placeholder (`?>`, `?x`, `<?`), second open
+     range, summary line starting with a blank character, blank line inside a record, stray text as its own block.
+   All rest on C01_reject_raw (errors are never dropped, parsing never crashes, one failing block fails the text).
+   The common guard [raw_ok (inject..._raw ...) = true] says that the edited text still has the layout of a document
+   (the new line is not blank, has no linefeed, line endings stay unambiguous); it is a boolean, checked by computation
+   in the Examples. What the classes do NOT cover (hence the few remaining _partial names): malformed entries are
+   characterised through the families listed, not as "every text that is no value of the grammar" (general form:
+   C01_parse_rejects_malformed_entry, whose hypothesis mentions parse_entry_value); several faults at once are covered
+   only through C01_reject_raw. The position of the first error of every class is C10_first_error_at_fault_*. *)
 From Klog Require Import Base.Prelude Base.Utf8 Model.Calendar Model.Values Model.Record Model.Lines Model.Parser
-  Spec.Spec Proofs.SpecValues Proofs.SpecEntry Proofs.SpecRecord Proofs.SpecDoc Proofs.SpecReject.
+  Spec.Spec Spec.SpecInject Proofs.SpecValues Proofs.SpecEntry Proofs.SpecRecord Proofs.SpecDoc Proofs.SpecReject
+  Proofs.SpecFaults Proofs.SpecFaultLines.
 Open Scope Z_scope.
 
 (* ---------- L0: value literals ---------- *)
@@ -74,14 +81,14 @@ Print Assumptions C01_parse_conforming.
 
 (* general form: any raw document (blank lines / groups of non-blank lines) one of whose groups makes parse_record
    report an error is rejected: at least one error, no records, no crash *)
-Theorem C01_reject_raw_partial : forall rd, raw_ok rd = true -> Exists (fun tg => sig_fails (fst tg)) (rd_groups rd) ->
+Theorem C01_reject_raw : forall rd, raw_ok rd = true -> Exists (fun tg => sig_fails (fst tg)) (rd_groups rd) ->
   exists es, parse_text (render_raw rd) = Ok (Failed es) /\ es <> [].
 Proof. exact reject_raw. Qed.
-Print Assumptions C01_reject_raw_partial.
+Print Assumptions C01_reject_raw.
 
 (* malformed or non-Gregorian date: the date of record k's headline is replaced by a text without blanks that
    NewDateFromString does not accept (see C01_date_not_gregorian for the non-Gregorian case) *)
-Theorem C01_parse_rejects_bad_date_partial : forall d k rg dtxt,
+Theorem C01_parse_rejects_bad_date : forall d k rg dtxt,
   nth_error (do_records d) k = Some rg ->
   let t := dtxt ++ skipn 10 (headline_text (fst rg)) in
   raw_ok (inject_raw k 0 t d) = true ->
@@ -91,7 +98,7 @@ Theorem C01_parse_rejects_bad_date_partial : forall d k rg dtxt,
   match skipn 10 (headline_text (fst rg)) with c :: _ => is_space_or_tab c = true | [] => True end ->
   exists es, parse_text (inject k 0 t d) = Ok (Failed es) /\ es <> [].
 Proof. exact reject_bad_date. Qed.
-Print Assumptions C01_parse_rejects_bad_date_partial.
+Print Assumptions C01_parse_rejects_bad_date.
 
 (* a date literal of the right shape that is not a date of the Gregorian calendar is not accepted *)
 Theorem C01_date_not_gregorian : forall d, 0 <= sd_year d <= 9999 -> 0 <= sd_month d <= 99 -> 0 <= sd_day d <= 99 ->
@@ -100,7 +107,7 @@ Proof. exact parse_render_date_invalid. Qed.
 Print Assumptions C01_date_not_gregorian.
 
 (* reversed range: the value line of an entry is replaced by a range whose end lies before its start *)
-Theorem C01_parse_rejects_reversed_range_partial : forall d k rg es1 e es2 a sp1 sp2 b tail,
+Theorem C01_parse_rejects_reversed_range : forall d k rg es1 e es2 a sp1 sp2 b tail,
   wf d -> nth_error (do_records d) k = Some rg -> sr_entries (fst rg) = es1 ++ e :: es2 ->
   wf_time a = true -> wf_time b = true -> timeline b < timeline a -> tail_ok tail -> text_ok tail = true ->
   let t := indent_text (sr_indent (fst rg)) ++ render_value (SRange a sp1 sp2 b) ++ tail in
@@ -108,10 +115,10 @@ Theorem C01_parse_rejects_reversed_range_partial : forall d k rg es1 e es2 a sp1
   raw_ok (inject_raw k j t d) = true ->
   exists es, parse_text (inject k j t d) = Ok (Failed es) /\ es <> [].
 Proof. exact reject_reversed_range. Qed.
-Print Assumptions C01_parse_rejects_reversed_range_partial.
+Print Assumptions C01_parse_rejects_reversed_range.
 
 (* second open range: the value line of an entry that follows an open range is replaced by an open range *)
-Theorem C01_parse_rejects_second_open_partial : forall d k rg es1 e es2 a sp1 sp2 extra tail,
+Theorem C01_parse_rejects_second_open : forall d k rg es1 e es2 a sp1 sp2 extra tail,
   wf d -> nth_error (do_records d) k = Some rg -> sr_entries (fst rg) = es1 ++ e :: es2 ->
   count_open es1 <> 0%nat ->
   wf_time a = true -> tail_ok tail -> text_ok tail = true ->
@@ -120,18 +127,135 @@ Theorem C01_parse_rejects_second_open_partial : forall d k rg es1 e es2 a sp1 sp
   raw_ok (inject_raw k j t d) = true ->
   exists es, parse_text (inject k j t d) = Ok (Failed es) /\ es <> [].
 Proof. exact reject_second_open. Qed.
-Print Assumptions C01_parse_rejects_second_open_partial.
+Print Assumptions C01_parse_rejects_second_open.
 
 (* summary line starting with a blank character: a record summary line is replaced by a text that begins with a blank
    character (tab or Zs) and is not an indented line *)
-Theorem C01_parse_rejects_blank_summary_partial : forall d k rg s1 s s2 t,
+Theorem C01_parse_rejects_blank_summary : forall d k rg s1 s s2 t,
   wf d -> nth_error (do_records d) k = Some rg -> sr_summary (fst rg) = s1 ++ s :: s2 ->
   match t with c :: _ => blank_char c = true | [] => False end ->
   find_indentation (utf8_encode t) = None ->
   raw_ok (inject_raw k (summary_line_index s1) t d) = true ->
   exists es, parse_text (inject k (summary_line_index s1) t d) = Ok (Failed es) /\ es <> [].
 Proof. exact reject_blank_summary. Qed.
-Print Assumptions C01_parse_rejects_blank_summary_partial.
+Print Assumptions C01_parse_rejects_blank_summary.
+
+(* text after the headline: after the should-total anything that begins with a non-blank; after the date (no should-total)
+   at least one blank and then anything that begins with a non-blank other than `(` (which opens the should-total) *)
+Theorem C01_parse_rejects_headline_text : forall d k rg c x,
+  wf d -> nth_error (do_records d) k = Some rg ->
+  is_space_or_tab c = false ->
+  match sr_should (fst rg) with Some _ => True | None => sr_trail (fst rg) <> [] /\ (c =? ch_lpar)%N = false end ->
+  raw_ok (inject_raw k (0) (headline_text (fst rg) ++ c :: x) d) = true ->
+  exists es, parse_text (inject k (0) (headline_text (fst rg) ++ c :: x) d) = Ok (Failed es) /\ es <> [].
+Proof. exact reject_headline_text. Qed.
+Print Assumptions C01_parse_rejects_headline_text.
+
+(* wrong indentation of the record's first indented line: it begins with a blank character but with no indentation style
+   (one space, a Zs character), or with a style followed by a further blank (five spaces, tab + space, two tabs) *)
+Theorem C01_parse_rejects_indentation_first : forall d k rg e es2 t,
+  wf d -> nth_error (do_records d) k = Some rg -> sr_entries (fst rg) = e :: es2 ->
+  (match t with c :: _ => blank_char c = true | [] => False end /\ find_indentation (utf8_encode t) = None)
+  \/ (exists st, find_indentation (utf8_encode t) = Some st /\ is_space_or_tab (peek t (length st)) = true) ->
+  raw_ok (inject_raw k (entry_line_index (fst rg) []) (t) d) = true ->
+  exists es, parse_text (inject k (entry_line_index (fst rg) []) (t) d) = Ok (Failed es) /\ es <> [].
+Proof. exact reject_indentation_first. Qed.
+Print Assumptions C01_parse_rejects_indentation_first.
+
+(* wrong or mixed indentation of a later entry line: it does not begin with the record's style, or has a further blank
+   after it. Guard: it does not begin with style+style — that is a legal continuation line of the entry before *)
+Theorem C01_parse_rejects_indentation_later : forall d k rg es1 e es2 t,
+  wf d -> nth_error (do_records d) k = Some rg -> sr_entries (fst rg) = es1 ++ e :: es2 -> es1 <> [] ->
+  has_prefix (indent_text (sr_indent (fst rg)) ++ indent_text (sr_indent (fst rg))) (utf8_encode t) = false ->
+  has_prefix (indent_text (sr_indent (fst rg))) (utf8_encode t) = false \/ is_space_or_tab (peek t (length (indent_text (sr_indent (fst rg))))) = true ->
+  raw_ok (inject_raw k (entry_line_index (fst rg) es1) (t) d) = true ->
+  exists es, parse_text (inject k (entry_line_index (fst rg) es1) (t) d) = Ok (Failed es) /\ es <> [].
+Proof. exact reject_indentation_later. Qed.
+Print Assumptions C01_parse_rejects_indentation_later.
+
+(* malformed time / duration / range, general form: the value line of an entry is replaced by the indentation and a text
+   on which parse_entry_value reports an error. The concrete families follow *)
+Theorem C01_parse_rejects_malformed_entry_partial : forall d k rg es1 e es2 txt,
+  wf d -> nth_error (do_records d) k = Some rg -> sr_entries (fst rg) = es1 ++ e :: es2 ->
+  match txt with c :: _ => is_space_or_tab c = false /\ (c <? 128)%N = true | [] => False end ->
+  (forall ln, exists e0, parse_entry_value ln (indent_text (sr_indent (fst rg)) ++ txt) (length (indent_text (sr_indent (fst rg)))) = EvErr e0) ->
+  raw_ok (inject_raw k (entry_line_index (fst rg) es1) (indent_text (sr_indent (fst rg)) ++ txt) d) = true ->
+  exists es, parse_text (inject k (entry_line_index (fst rg) es1) (indent_text (sr_indent (fst rg)) ++ txt) d) = Ok (Failed es) /\ es <> [].
+Proof. exact reject_malformed_entry. Qed.
+Print Assumptions C01_parse_rejects_malformed_entry_partial.
+
+(* a time-shaped literal that is no time of the specification (hour > 24, minute > 59, 24:01, 24:00>, 13:00pm, 0:30am:
+   all 180,000 - 27,000 literals `<?D{1,2}:DD(am|pm)?>?` outside wf_time) where the start time should be *)
+Theorem C01_parse_rejects_bad_time : forall d k rg es1 e es2 st rest,
+  wf d -> nth_error (do_records d) k = Some rg -> sr_entries (fst rg) = es1 ++ e :: es2 ->
+  time_fields_in_shape st = true -> wf_time st = false ->
+  match rest with c :: _ => is_dash_or_space c = true | [] => True end ->
+  raw_ok (inject_raw k (entry_line_index (fst rg) es1) (indent_text (sr_indent (fst rg)) ++ render_time st ++ rest) d) = true ->
+  exists es, parse_text (inject k (entry_line_index (fst rg) es1) (indent_text (sr_indent (fst rg)) ++ render_time st ++ rest) d) = Ok (Failed es) /\ es <> [].
+Proof. exact reject_bad_time. Qed.
+Print Assumptions C01_parse_rejects_bad_time.
+
+(* missing dash: a time, then blanks and something that is not a dash (`8:00 9:00`), or nothing (`8:00`) *)
+Theorem C01_parse_rejects_missing_dash : forall d k rg es1 e es2 a sp1 rest,
+  wf d -> nth_error (do_records d) k = Some rg -> sr_entries (fst rg) = es1 ++ e :: es2 ->
+  wf_time a = true ->
+  match rest with c :: _ => is_space c = false /\ (c =? ch_minus)%N = false | [] => True end ->
+  (sp1 = 0%nat -> rest = []) ->
+  raw_ok (inject_raw k (entry_line_index (fst rg) es1) (indent_text (sr_indent (fst rg)) ++ render_time a ++ spaces sp1 ++ rest) d) = true ->
+  exists es, parse_text (inject k (entry_line_index (fst rg) es1) (indent_text (sr_indent (fst rg)) ++ render_time a ++ spaces sp1 ++ rest) d) = Ok (Failed es) /\ es <> [].
+Proof. exact reject_missing_dash. Qed.
+Print Assumptions C01_parse_rejects_missing_dash.
+
+(* missing end time (s' empty: `8:00 -`), an end that is no time (`8:00 - 9:60`, `8:00 - foo`), shifted placeholder `<?` *)
+Theorem C01_parse_rejects_bad_end : forall d k rg es1 e es2 a sp1 sp2 s' tail,
+  wf d -> nth_error (do_records d) k = Some rg -> sr_entries (fst rg) = es1 ++ e :: es2 ->
+  wf_time a = true ->
+  forallb (fun c => negb (is_space_or_tab c)) s' = true ->
+  match tail with c :: _ => is_space_or_tab c = true | [] => True end ->
+  match s' ++ tail with c :: _ => is_space c = false /\ (c =? ch_q)%N = false | [] => True end ->
+  (forall t, parse_time (utf8_encode s') <> Ok t) ->
+  raw_ok (inject_raw k (entry_line_index (fst rg) es1) (indent_text (sr_indent (fst rg)) ++ render_time a ++ spaces sp1 ++ [45%N] ++ spaces sp2 ++ s' ++ tail) d) = true ->
+  exists es, parse_text (inject k (entry_line_index (fst rg) es1) (indent_text (sr_indent (fst rg)) ++ render_time a ++ spaces sp1 ++ [45%N] ++ spaces sp2 ++ s' ++ tail) d) = Ok (Failed es) /\ es <> [].
+Proof. exact reject_bad_end. Qed.
+Print Assumptions C01_parse_rejects_bad_end.
+
+(* shifted or otherwise decorated placeholder: `?` followed, up to the next blank, by anything but further `?` (`?>`, `?x`, `??>`) *)
+Theorem C01_parse_rejects_bad_placeholder : forall d k rg es1 e es2 a sp1 sp2 rep tail,
+  wf d -> nth_error (do_records d) k = Some rg -> sr_entries (fst rg) = es1 ++ e :: es2 ->
+  wf_time a = true ->
+  forallb (fun c => negb (is_space_or_tab c)) rep = true ->
+  match tail with c :: _ => is_space_or_tab c = true | [] => True end ->
+  forallb (fun c => (c =? ch_q)%N) rep = false ->
+  raw_ok (inject_raw k (entry_line_index (fst rg) es1) (indent_text (sr_indent (fst rg)) ++ render_time a ++ spaces sp1 ++ [45%N] ++ spaces sp2 ++ 63%N :: rep ++ tail) d) = true ->
+  exists es, parse_text (inject k (entry_line_index (fst rg) es1) (indent_text (sr_indent (fst rg)) ++ render_time a ++ spaces sp1 ++ [45%N] ++ spaces sp2 ++ 63%N :: rep ++ tail) d) = Ok (Failed es) /\ es <> [].
+Proof. exact reject_bad_placeholder. Qed.
+Print Assumptions C01_parse_rejects_bad_placeholder.
+
+(* `1h60m`: a duration literal with both parts whose minute part is 60 or more *)
+Theorem C01_parse_rejects_minutes_overflow : forall d k rg es1 e es2 du tail,
+  wf d -> nth_error (do_records d) k = Some rg -> sr_entries (fst rg) = es1 ++ e :: es2 ->
+  dur_minutes_overflow du = true -> tail_ok tail ->
+  raw_ok (inject_raw k (entry_line_index (fst rg) es1) (indent_text (sr_indent (fst rg)) ++ render_dur du ++ tail) d) = true ->
+  exists es, parse_text (inject k (entry_line_index (fst rg) es1) (indent_text (sr_indent (fst rg)) ++ render_dur du ++ tail) d) = Ok (Failed es) /\ es <> [].
+Proof. exact reject_minutes_overflow. Qed.
+Print Assumptions C01_parse_rejects_minutes_overflow.
+
+(* blank line inside a record: a blank (space / tab only) line bl is inserted before the value line of an entry; the
+   indented line after it then begins a block of its own and is rejected *)
+Theorem C01_parse_rejects_blank_inside : forall d k rg es1 e es2 bl, wf d -> nth_error (do_records d) k = Some rg ->
+  sr_entries (fst rg) = es1 ++ e :: es2 ->
+  raw_ok (inject_blank_raw k (entry_line_index (fst rg) es1) bl d) = true ->
+  exists es, parse_text (inject_blank k (entry_line_index (fst rg) es1) bl d) = Ok (Failed es) /\ es <> [].
+Proof. exact reject_blank_inside. Qed.
+Print Assumptions C01_parse_rejects_blank_inside.
+
+(* stray non-record text as a block of its own before record k (or after the last record): its first line is indented,
+   or its first blank-delimited word is not a date *)
+Theorem C01_parse_rejects_stray_text : forall d k t0 others gap, wf d -> (k <= length (do_records d))%nat ->
+  raw_ok (inject_stray_raw k (t0 :: others) gap d) = true -> stray_first_line t0 ->
+  exists es, parse_text (inject_stray k (t0 :: others) gap d) = Ok (Failed es) /\ es <> [].
+Proof. exact reject_stray. Qed.
+Print Assumptions C01_parse_rejects_stray_text.
 
 (* known finding K3: a line holding only U+00A0 between two records is a blank line by the specification's glossary
    (blank character = tab or Zs), but the text is rejected. Bytes: "2020-01-01\n" C2 A0 "\n2020-01-02\n" *)
@@ -225,3 +349,34 @@ Example C01_blank_summary_nonvacuous :
   blank_char 12288 = true /\ find_indentation (utf8_encode t) = None
   /\ raw_ok (inject_raw 0 (summary_line_index []) t example_doc) = true.
 Proof. repeat split; vm_compute; reflexivity. Qed.
+
+(* the new classes on the three-record document: the guards hold *)
+Definition rg0 := nth 0 (do_records example_doc) (Build_s_record (Build_s_date 0 0 0 true) None [] [] I4 [], []).
+Example C01_faults_nonvacuous :
+  (* (a) 2024-02-29  (8h!) x *)
+  raw_ok (inject_raw 0 0 (headline_text (fst rg0) ++ b!"x") example_doc) = true
+  (* (b) first indented line with one space / with five spaces; a later line with two spaces in a four-space record *)
+  /\ raw_ok (inject_raw 0 (entry_line_index (fst rg0) []) b!" 1h" example_doc) = true
+  /\ find_indentation (utf8_encode b!" 1h") = None
+  /\ raw_ok (inject_raw 0 (entry_line_index (fst rg0) []) b!"     1h" example_doc) = true
+  /\ find_indentation (utf8_encode b!"     1h") = Some b!"    "
+  /\ (exists es1 e es2, sr_entries (fst rg0) = es1 ++ e :: es2 /\ es1 <> [] /\
+        raw_ok (inject_raw 0 (entry_line_index (fst rg0) es1) b!"  1h" example_doc) = true /\
+        has_prefix (b!"    " ++ b!"    ") (utf8_encode b!"  1h") = false /\ has_prefix b!"    " (utf8_encode b!"  1h") = false)
+  (* (c) 25:00 - 26:00 is time-shaped and no time; 1h60m *)
+  /\ time_fields_in_shape (t_ 0 25 0 C24) = true /\ wf_time (t_ 0 25 0 C24) = false
+  /\ raw_ok (inject_raw 0 (entry_line_index (fst rg0) []) (b!"    " ++ render_time (t_ 0 25 0 C24) ++ b!" - 26:00") example_doc) = true
+  /\ dur_minutes_overflow {| du_sign := SNone; du_h := Some b!"1"; du_m := Some b!"60" |} = true
+  (* (d) 8:00 - ?> *)
+  /\ raw_ok (inject_raw 0 (entry_line_index (fst rg0) []) (b!"    " ++ render_time (t_ 0 8 0 C24) ++ spaces 1 ++ [45%N] ++ spaces 1 ++ 63%N :: b!">" ++ []) example_doc) = true
+  (* (e) a blank line before the second entry; (f) stray text before the second record *)
+  /\ (exists es1 e es2, sr_entries (fst rg0) = es1 ++ e :: es2 /\ length es1 = 1%nat /\
+        raw_ok (inject_blank_raw 0 (entry_line_index (fst rg0) es1) b!" " example_doc) = true)
+  /\ raw_ok (inject_stray_raw 1 [b!"TODO later"] [[]] example_doc) = true
+  /\ stray_first_line b!"TODO later".
+Proof.
+  repeat split; try (vm_compute; reflexivity).
+  - eexists [_], _, [_]. repeat split; try (vm_compute; reflexivity). discriminate.
+  - eexists [_], _, [_]. repeat split; vm_compute; reflexivity.
+  - right. exists b!"TODO", b!" later". repeat split; try reflexivity. intros x H. vm_compute in H. discriminate.
+Qed.
